@@ -268,7 +268,92 @@ class AMcFS(fsspec.asyn.AsyncFileSystem):
         raise NotImplementedError(mode)
 
 
+class McLocalFile:
+    """a real OS-level file of the local filesystem whose open / seek / read / close are events (and yield points)"""
+
+    def __init__(self, path):
+        import io
+
+        self.path = path
+        self.f = io.open(path, "rb")
+        with _lock:
+            _handle_counter[0] += 1
+            self.hid = _handle_counter[0]
+        ev("open", path, self.hid, 0, 0)
+
+    def seek(self, off, whence=0):
+        ev("seek", self.path, self.hid, off, whence)
+        return self.f.seek(off, whence)
+
+    def tell(self):
+        return self.f.tell()
+
+    def read(self, n=-1):
+        ev("read", self.path, self.hid, self.f.tell() if not self.f.closed else -1, -1 if n is None else n)
+        return self.f.read(-1 if n is None else n)
+
+    def readinto(self, b):
+        ev("read", self.path, self.hid, self.f.tell() if not self.f.closed else -1, len(memoryview(b).cast("B")))
+        return self.f.readinto(b)
+
+    def readall(self):
+        return self.read(-1)
+
+    def read1(self, n=-1):
+        return self.read(n)
+
+    @property
+    def name(self):
+        return self.path
+
+    @property
+    def closed(self):
+        return self.f.closed
+
+    mode = "rb"
+
+    def close(self):
+        if not self.f.closed:
+            ev("close", self.path, self.hid, 0, 0)
+        self.f.close()
+
+    def __enter__(self):
+        return self
+
+    def __exit__(self, *a):
+        self.close()
+
+    def readable(self):
+        return True
+
+    def seekable(self):
+        return True
+
+    def writable(self):
+        return False
+
+    def fileno(self):
+        return self.f.fileno()
+
+
+from fsspec.implementations.local import LocalFileSystem  # noqa: E402
+
+
+class McLocalFS(LocalFileSystem):
+    """``mclocal://``: fsspec's own local filesystem (``local_file`` is true, an instance of LocalFileSystem), except that binary
+    reads go through McLocalFile, so that loads from a LOCAL product have yield points / a trace like those from mcfs://"""
+
+    protocol = "mclocal"
+    cachable = False
+
+    def _open(self, path, mode="rb", block_size=None, **kwargs):
+        if mode == "rb":
+            return McLocalFile(self._strip_protocol(path))
+        return super()._open(path, mode=mode, block_size=block_size, **kwargs)
+
+
 def register():
+    fsspec.register_implementation("mclocal", McLocalFS, clobber=True)
     fsspec.register_implementation("mcfs", McFS, clobber=True)
     fsspec.register_implementation("amcfs", AMcFS, clobber=True)
 
